@@ -24,7 +24,7 @@ import (
 // ---- sequential programs against a sorted-map model ---------------------------------------------
 
 type COp struct {
-	Op    string `json:"op"` // get has set del iter riter write wrap discard iterw
+	Op    string `json:"op"` // get has set del iter riter write wrap discard iterw pmod (parent modified directly right after a write)
 	Key   B      `json:"k,omitempty"`
 	Val   string `json:"v,omitempty"`
 	Start *B     `json:"s,omitempty"`
@@ -104,6 +104,14 @@ func GenCProg(r *sim.Rand) CProg {
 			}
 		}
 		p.Ops = append(p.Ops, o)
+		if o.Op == "write" && r.Chance(60) {
+			// the wrapper is clean now: somebody else (a sibling wrapper, the owner of the parent) changes the parent
+			// directly before the wrapper is used again
+			for j := 0; j < 1+r.Intn(3); j++ {
+				p.Ops = append(p.Ops, COp{Op: "pmod", Key: B(cAlpha[r.Intn(len(cAlpha))]), Val: fmt.Sprintf("p%d.%d", i, j), WDel: r.Chance(40)})
+			}
+			p.Ops = append(p.Ops, COp{Op: "get", Key: p.Ops[len(p.Ops)-1].Key})
+		}
 	}
 	return p
 }
@@ -223,11 +231,29 @@ func RunCProg(p *CProg, rep Reporter) {
 			bad(i, o, sig, fmt.Sprintf("level %d holds %q, model says %q", lvl, got, want))
 		}
 	}
+	justWritten := false // no call at all was made on the top wrapper since its Write
 	for i, o := range p.Ops {
 		top := len(stores) - 1
 		st, mv := stores[top], views[top]
+		jw := justWritten
+		justWritten = false
 		perr := safely(func() {
 			switch o.Op {
+			case "pmod":
+				if !jw || top == 0 {
+					return
+				}
+				justWritten = true
+				if o.WDel {
+					stores[top-1].Delete([]byte(o.Key))
+					delete(views[top-1], string(o.Key))
+					delete(mv, string(o.Key))
+				} else {
+					stores[top-1].Set([]byte(o.Key), []byte(o.Val))
+					views[top-1][string(o.Key)] = o.Val
+					mv[string(o.Key)] = o.Val
+				}
+				rep.Count("c15.seq.parent_modified_after_write", 1)
 			case "get":
 				got := st.Get([]byte(o.Key))
 				want, ok := mv[string(o.Key)]
@@ -322,6 +348,7 @@ func RunCProg(p *CProg, rep Reporter) {
 				rep.Count("c15.seq.writes", 1)
 				fullCheck(i, o, top-1, "parent-after-write")
 				fullCheck(i, o, top, "wrapper-after-write")
+				justWritten = true
 			case "wrap":
 				var w stypes.KVStore
 				if cw, ok := st.(interface{ CacheWrap() stypes.CacheWrap }); ok && i%2 == 0 {
